@@ -498,6 +498,55 @@ func checkC05(c *Check) {
 		}
 		l := lpH.lin(res[0], lpH.newCtx(r))
 		c.Req(l.k == 8 && len(l.c) == 2, "C05.R6:header-size-constant", r6, p.InstrPos(r), fmt.Sprintf("HeaderSize() is not 8 + varint length + address length (got %s)", l))
+		// the varint width term: quic-go's own quicvarint.Len, or a helper whose
+		// every constant return is proved to sit in that width's value range
+		for a := range l.c {
+			call, ok := a.(*ssa.Call)
+			if !ok {
+				continue
+			}
+			g := staticCallee(call)
+			if g == nil {
+				c.Undecided("C05.R6:header-size-varint-width", r6, p.InstrPos(r), "the varint width in HeaderSize() comes from a dynamic call")
+				continue
+			}
+			if g.String() == "github.com/apernet/quic-go/quicvarint.Len" {
+				c.OK("C05.R6:header-size-varint-width", r6, p.InstrPos(call))
+				continue
+			}
+			if !p.IsRepoFn(g) || len(g.Params) != 1 {
+				c.Undecided("C05.R6:header-size-varint-width", r6, p.InstrPos(call), "the varint width in HeaderSize() comes from "+g.String()+", which is neither quicvarint.Len nor a one-argument repository helper")
+				continue
+			}
+			lo := map[int64]int64{1: 0, 2: 64, 4: 16384, 8: 1073741824}
+			hi := map[int64]int64{1: 63, 2: 16383, 4: 1073741823, 8: 4611686018427387903}
+			lg := newLinProver(p, g)
+			good, why := true, ""
+			allInstrs(g, func(in ssa.Instruction) {
+				rr, ok := in.(*ssa.Return)
+				if !ok {
+					return
+				}
+				vals := retResults(rr)
+				if len(vals) != 1 {
+					return
+				}
+				k, isC := constInt(vals[0])
+				if !isC {
+					good, why = false, "a non-constant width is returned"
+					return
+				}
+				if _, known := lo[k]; !known {
+					good, why = false, fmt.Sprintf("width %d is not a QUIC varint width", k)
+					return
+				}
+				x := lg.lin(g.Params[0], lg.newCtx(rr))
+				if !lg.proveAt(rr, linConst(lo[k]), x, 0, nil) || !lg.proveAt(rr, x, linConst(hi[k]), 0, nil) {
+					good, why = false, fmt.Sprintf("width %d is returned for values outside [%d, %d]", k, lo[k], hi[k])
+				}
+			})
+			c.Req(good, "C05.R6:header-size-varint-width", r6, p.InstrPos(call), "HeaderSize() computes the address-length width with "+fnName(g)+", whose boundaries differ from the QUIC varint encoding ("+why+"): the reported size is off for some address lengths and fragments exceed the datagram limit")
+		}
 	})
 	okOff := false
 	allInstrs(ser, func(in ssa.Instruction) {
